@@ -43,6 +43,7 @@ REPR_SIG = "repr-of-object-inside-dict-rendered"
 KWARG_SIG = "filter-injected-argument-overridable"
 CLSNAME_SIG = "undefined-hint-shows-class-name"
 CLASSGETITEM_SIG = "class-getitem-on-class-objects"
+FSPATH_NAME = "inc_secret"   # the template name __fspath__ answers (str(obj) names another one)
 CLS_SENT = "CLSs3c"        # part of the Python class name of every generated instance
 
 # ----------------------------------------------------------------------------
@@ -428,7 +429,12 @@ def _instance_class(kind: str, is_async: bool, has_liq: bool, has_html: bool, ha
                 LOG.calls.append("dunder:" + name)
                 return (DUNDER_SENT,) if name != "__bytes__" else DUNDER_SENT.encode()
             return f
-        ns.update(__repr__=__repr__, __format__=__format__)
+        def __fspath__(self):  # type: ignore[no-untyped-def]
+            # os.PathLike: pathlib.Path(obj) / open(obj) would call this instead of str(obj)
+            LOG.calls.append("dunder:__fspath__")
+            return FSPATH_NAME
+
+        ns.update(__repr__=__repr__, __format__=__format__, __fspath__=__fspath__)
         for dn in ("__reduce__", "__reduce_ex__", "__getstate__", "__bytes__", "__dir__", "__copy__", "__deepcopy__"):
             ns[dn] = _dunder(dn)
     for name, tag in members:
@@ -1338,11 +1344,36 @@ UNDEFS = ("default", "debug", "strict", "falsy")
 CFGS = ("std", "novalidate", "alt")
 
 
-def make_env(shopify: bool = False, auto_escape: bool = False, undef: str = "default", cfg: str = "std") -> Any:
+FS_FILES = {
+    "inc_a": "<A {{ v }}{{ a }}>",
+    FSPATH_NAME: "<" + SENT + " partial {{ v }}>",
+    "inc_base": "[base {% block b %}B{% endblock %}]",
+}
+_FS_DIR: list[str] = []
+
+
+def fs_dir() -> str:
+    """A scratch directory holding the partials as files (removed at exit)."""
+    if not _FS_DIR:
+        import atexit
+        import os
+        import shutil
+        import tempfile
+        d = tempfile.mkdtemp(prefix="c05_", dir=os.environ.get("VERIF_SCRATCH", "/var/tmp"))
+        for name, src in {**PARTIALS, **FS_FILES}.items():
+            with open(os.path.join(d, name), "w", encoding="utf-8") as f:
+                f.write(src)
+        atexit.register(shutil.rmtree, d, ignore_errors=True)
+        _FS_DIR.append(d)
+    return _FS_DIR[0]
+
+
+def make_env(shopify: bool = False, auto_escape: bool = False, undef: str = "default", cfg: str = "std",
+             loader: str = "dict") -> Any:
     """cfg: 'std' | 'novalidate' (validate_filter_arguments=False, the documented switch for
     lazily registered filters) | 'alt' (the other documented switches: shorthand_indexes,
     suppress_blank_control_flow_blocks off, the three resource limits set, no validation)."""
-    key = (shopify, auto_escape, undef, cfg)
+    key = (shopify, auto_escape, undef, cfg, loader)
     if key not in _ENVS:
         from liquid2 import DictLoader
         from liquid2 import undefined as U
@@ -1359,7 +1390,15 @@ def make_env(shopify: bool = False, auto_escape: bool = False, undef: str = "def
                 loop_iteration_limit = 10 ** 7
                 local_namespace_limit = 10 ** 9
                 output_stream_limit = 10 ** 8
-        env = Environment(loader=DictLoader(PARTIALS), auto_escape=auto_escape, undefined=ucls,
+        if loader == "fs":
+            from liquid2 import FileSystemLoader
+            ld: Any = FileSystemLoader(fs_dir())
+        elif loader == "cfs":
+            from liquid2 import CachingFileSystemLoader
+            ld = CachingFileSystemLoader(fs_dir())
+        else:
+            ld = DictLoader({**PARTIALS, **FS_FILES})
+        env = Environment(loader=ld, auto_escape=auto_escape, undefined=ucls,
                           validate_filter_arguments=(cfg == "std"))
         for name, f in list(env.filters.items()):
             env.filters[name] = Rec(f, name)
@@ -1372,10 +1411,10 @@ _LOOP: Any = None
 
 def run_impl(src: str, data: list[tuple[str, tuple]], *, async_: bool = False,
              shopify: bool = False, auto_escape: bool = False, undef: str = "default",
-             cfg: str = "std") -> tuple:
+             cfg: str = "std", loader: str = "dict") -> tuple:
     """('ok', text) | ('err', class name, message).  Logs are left in LOG."""
     global _LOOP
-    env = make_env(shopify, auto_escape, undef, cfg)
+    env = make_env(shopify, auto_escape, undef, cfg, loader)
     memo: dict[int, Any] = {}
     pydata = {k: build(v, memo) for k, v in data}
     LOG.clear()
@@ -2199,12 +2238,12 @@ def main(chk: C.Check, build: C.Build) -> None:
         return {a: oracle_one(src, data, async_=a, **kw) for a in (False, True)}
 
     def oracle_one(src: str, data: list[tuple[str, tuple]], *, async_: bool = False, shopify: bool = False,
-                   auto_escape: bool = False, undef: str = "default", cfg: str = "std",
+                   auto_escape: bool = False, undef: str = "default", cfg: str = "std", loader: str = "dict",
                    names: set[str] | None = None, differential: bool = True,
                    exempt: frozenset[str] = frozenset()) -> tuple:
         """Render on the implementation and evaluate the direct oracles."""
         nonlocal evaluations
-        kw = dict(async_=async_, shopify=shopify, auto_escape=auto_escape, undef=undef, cfg=cfg)
+        kw = dict(async_=async_, shopify=shopify, auto_escape=auto_escape, undef=undef, cfg=cfg, loader=loader)
         out = run_impl(src, data, **kw)
         evaluations += 1
         dist["oracle_renders"] += 1
@@ -2364,6 +2403,26 @@ def main(chk: C.Check, build: C.Build) -> None:
     for src in key_templates():
         for undef in UNDEFS:
             oracle_run(src, kd, undef=undef, names=set(re.findall(r"[A-Za-z_][A-Za-z0-9_]*", src)))
+    # template names held in variables, on every loader: only str(x) may name the partial
+    # (a file-system loader builds pathlib.Path(name), which prefers x.__fspath__())
+    base = {"shape": "inst", "async": False, "liq": None, "items": [], "aitems": [], "seq": []}
+    dund = [("secret", ("val", ("str", SENT))), ("__repr__", ("call", "Obj(secret='%s')" % REPR_SENT))]
+    nx = ("obj", dict(base, id=1, kind="plain", hg=False, str="inc_a", attrs=dund))
+    nm = ("obj", dict(base, id=2, kind="mapping", hg=True, str="inc_a", items=[("n", nx)], attrs=dund))
+    nq = ("obj", dict(base, id=3, kind="sequence", hg=True, str="Q", seq=[nx], attrs=dund))
+    ndata = [("x", nx), ("m", nm), ("q", nq), ("l", ("list", [("int", 1), nx])), ("s", ("str", "inc_a"))]
+    name_templates = [
+        "{% include x %}", "{% include x, a: 1 %}", "{% include x with m as v %}", "{% include x for l as v %}",
+        "{% assign n = x %}{% include n %}", "{% include m.n %}", "{% include q[0] %}", "{% include l[1] %}",
+        "{% include m %}", "{% include q.first %}", "{% for n in l %}{% include n %}{% endfor %}",
+        "{% include s %}|{% include x.secret %}|{% include nosuch %}",
+        "{% render 'inc_a', v: x %}|{% render 'inc_a' for l as v %}|{% include 'inc_a' with x as v %}",
+        "{% extends 'inc_base' %}{% block b %}{{ x }}{% include x %}{% endblock %}",
+        "{% capture n %}{{ x }}{% endcapture %}{% include n %}", "{% with n: x %}{% include n %}{% endwith %}",
+    ]
+    for src in name_templates:
+        for ld in ("dict", "fs", "cfs"):
+            oracle_run(src, ndata, loader=ld, names={"include", "__fspath__"})
     # class objects as data: obj[key] on a class is __class_getitem__ (known finding)
     known_as[0] = CLASSGETITEM_SIG
     cd_ = classobj_data()
